@@ -315,6 +315,27 @@ func (tree *HTree) remove(ki *KeyInfo, oldPos Position) {
 	tree.remvoeFromLeaf(&tree.ni, ki, oldPos)
 }
 
+// updatePos moves the item of ki from oldPos to newPos, atomically, unless the item has been
+// changed in the meantime. Version and value hash stay as they are, so no node hash changes.
+func (tree *HTree) updatePos(ki *KeyInfo, oldPos, newPos Position) (updated, found bool) {
+	tree.Lock()
+	defer tree.Unlock()
+	var req HTreeReq
+	req.ki = ki
+	ni := &tree.ni
+	tree.getLeaf(ki, ni)
+	if found = tree.leafs[ni.offset].Get(&req); !found {
+		return
+	}
+	if req.item.Pos != oldPos {
+		return
+	}
+	req.item.Pos = newPos
+	tree.leafs[ni.offset].Set(&req)
+	updated = true
+	return
+}
+
 func (tree *HTree) get(ki *KeyInfo) (meta *Meta, pos Position, found bool) {
 	var req HTreeReq
 	req.ki = ki
